@@ -126,7 +126,7 @@ class _ServerDrv(Drv):
     def request(self, i, op):
         heavy = op == "request_heavy"
         md = {"i": i, "weight": 2 if heavy else 1, "priority": 0 if heavy else 1, "flow": "a" if heavy else "b"}
-        ctx = {"metadata": md, "deadline": self.h.now + Duration.from_seconds(0.75 if heavy else 3.0)}
+        ctx = {"metadata": md, "deadline": self.h.now + Duration.from_seconds(P(0.75) if heavy else P(3.0))}
         return [self.h.ev(self.s, "Request", ctx)]
 
 
